@@ -72,13 +72,17 @@ TScale(T, k, x, s) == IF k = 0 THEN FMul(x, s, T.p) ELSE Mk(Deg(T, k), LAMBDA i 
 TEmbed(T, j, k, x) == IF j = k THEN x
                       ELSE Mk(Deg(T, k), LAMBDA i : IF i = 1 THEN TEmbed(T, j, k - 1, x) ELSE TZero(T, k - 1))
 
-(* x^e for a BigNat e (square and multiply, most significant bit first) *)
-RECURSIVE TExpR(_, _, _, _, _, _)
-TExpR(T, k, x, e, i, acc) ==
-    IF i < 0 THEN acc
-    ELSE LET s == TMul(T, k, acc, acc) IN
-         TExpR(T, k, x, e, i - 1, IF BBit(e, i) = 1 THEN TMul(T, k, s, x) ELSE s)
-TExp(T, k, x, e) == TExpR(T, k, x, e, BBits(e) - 1, TOne(T, k))
+(* x^e for a BigNat e: square and multiply, most significant bit first.  The bit range is folded  *)
+(* by halves (recursion depth O(log bits)): TLC's cost per step grows with the depth of the Java *)
+(* stack, a linear recursion over 256 bits is ~8x slower.  `a1 = a1` forces the left half.        *)
+RECURSIVE TExpR(_, _, _, _, _, _, _)
+TExpR(T, k, x, e, acc, lo, hi) ==      \* acc after consuming bits hi-1 .. lo of e
+    IF hi - lo = 1
+    THEN LET s == TMul(T, k, acc, acc) IN IF BBit(e, lo) = 1 THEN TMul(T, k, s, x) ELSE s
+    ELSE LET mid == (lo + hi) \div 2
+             a1  == TExpR(T, k, x, e, acc, mid, hi)
+         IN  IF a1 = a1 THEN TExpR(T, k, x, e, a1, lo, mid) ELSE a1
+TExp(T, k, x, e) == IF BBits(e) = 0 THEN TOne(T, k) ELSE TExpR(T, k, x, e, TOne(T, k), 0, BBits(e))
 
 (* Frobenius: the p-th power map, iterated j times *)
 RECURSIVE TFrb(_, _, _, _)
